@@ -1153,6 +1153,11 @@ def resolve_parent_loop(tt, path_tree, c_type, cur):
     # break the loop by undoing one of the ops that caused the loop
     while not tt.path_changed(cur):
         cur = tt.final_parent(cur)
+    if tt.tree_path(cur) is None:
+        # The moved entry is new: there is no earlier position to move it
+        # back to.  Leave the loop alone; resolve_conflicts will report the
+        # transform as malformed.
+        return
     yield (
         c_type,
         "Cancelled move",
